@@ -41,6 +41,7 @@ pub fn run(ctx: &Ctx) -> Report {
         rep.floor(&format!("attack.{a}.rejected"), 20);
     }
     rep.floor("attack.replay-reordered.rejected", 10);
+    rep.floor("control.length-sweep.accepted", 60);
     rep.floor("format.Compact", 20);
     rep.floor("format.JSON", 20);
     rep
@@ -157,6 +158,48 @@ fn one_case(ctx: &Ctx, case: u64, l: &mut Local) {
                         });
                     }
                 }
+            }
+        }
+    }
+    // ---- length sweep: a credential with ~140 disclosures (> 8 KiB of hashed text) in which ONE value grows
+    // by a byte per case, so that across the block every part of the hashed text ends on every alignment
+    // relative to any fixed block size; the honest key-bound presentation is accepted at each length
+    if case % 32 == 19 {
+        let n = 120 + (case / 32) % 60;
+        for j in 0..12u64 {
+            let pad = (((case / 32) * 12 + j) % 192) as usize;
+            let mut m = serde_json::Map::new();
+            m.insert("a_pad".into(), json!("p".repeat(pad)));
+            m.insert("exp".into(), json!(4_000_000_000u64));
+            m.insert("iss".into(), json!("https://issuer.example"));
+            for i in 0..n {
+                m.insert(format!("m{i:03}"), json!(format!("{:016x}{:016x}", r.next(), r.next())));
+            }
+            let u = Value::Object(m);
+            let mut issuer = api::new_issuer(cfg.alg, 0, s.explicit_alg);
+            let kind = if r.chance(50) { gen::StratKind::TopLevel } else { gen::StratKind::AllLevels };
+            let strat = gen::gen_strategy(&mut r, &u, kind);
+            let Ok(big) = pipeline::issue_with(&mut issuer, &u, &strat, Some((halg, 0)), false, fmt) else { continue };
+            let Outcome::Ok(mut h) = api::holder_new(&big.sd_jwt, fmt) else { continue };
+            let mut selb = gen::select_all(&u);
+            if r.chance(30) {
+                if let Some(o) = selb.as_object_mut() {
+                    o.remove(&format!("m{:03}", r.below(n)));
+                }
+            }
+            let Outcome::Ok(p2) = api::present(&mut h, &selb, Some(&kb)) else { continue };
+            let v = api::verify(&p2, &resolver, Some((&kb.aud, &kb.nonce)), fmt);
+            l.evals += 1;
+            if v.out.is_ok() {
+                l.count("control.length-sweep.accepted");
+            } else {
+                l.violate(Violation {
+                    subcheck: "control-rejected".into(),
+                    class: format!("honest key-bound presentation of a credential with more than 100 disclosures ({} holder, {})", halg.name(), fmt.name()),
+                    observed: v.out.panic_signature().unwrap_or_else(|| v.out.describe()),
+                    case,
+                    detail: json!({"config": cfg.describe(), "pad": pad, "members": n, "presentation_len": p2.len()}),
+                });
             }
         }
     }
